@@ -851,7 +851,7 @@ func c08ItemLoops(c *Ctx, a *sketchAnchors) {
 			}
 		}
 	}
-	c.R.floor(rule, "item loops in bin decoders", nloops, 5)
+	c.R.floor(rule, "item loops in bin decoders", nloops, 3) // two layouts may share one loop
 	c08BatchSizes(c, rule, withNewHelpers(fns...))
 	// every store's bin decoder reports success only after it has read something: a path that returns nil has called
 	// a primitive decoder, or handed the cursor to another bin decoder (a block that lost everything after its flag
